@@ -274,19 +274,21 @@ Definition st_holds (st : store) (c : cid) (t : triple) : bool :=
   end.
 
 (* ------------------------------------------------------------------ *)
-(* Graph objects over two stores                                       *)
+(* Graph objects over any number of stores                             *)
 
-(* a Graph object: which store, the store key of its identifier, and a token
-   for the identity (`is`) of the identifier object *)
-Definition handle := (bool * cid * N)%type.
-Definition h_store (h : handle) : bool := fst (fst h).
+(* a Graph object: which store (0 and 1 are the stores of the case; 2, 3, ... are
+   the new default stores that the binary operators create, in order), the
+   store key of its identifier, and a token for the identity (`is`) of the
+   identifier object *)
+Definition handle := (nat * cid * N)%type.
+Definition h_store (h : handle) : nat := fst (fst h).
 Definition h_cid (h : handle) : cid := snd (fst h).
 Definition h_tok (h : handle) : N := snd h.
 
-Record world := { w0 : store; w1 : store }.
-Definition w_get (w : world) (b : bool) : store := if b then w1 w else w0 w.
-Definition w_set (w : world) (b : bool) (s : store) : world :=
-  if b then {| w0 := w0 w; w1 := s |} else {| w0 := s; w1 := w1 w |}.
+Definition world := nat -> store.
+Definition w_get (w : world) (b : nat) : store := w b.
+Definition w_set (w : world) (b : nat) (s : store) : world :=
+  fun b' => if Nat.eqb b' b then s else w b'.
 
 Inductive binop := OAdd | OSub | OMul | OXor.
 
@@ -339,7 +341,7 @@ Definition g_isub (w : world) (g h : handle) : world :=
    with both graphs in one SimpleMemory store the step after the first removal
    raised RuntimeError ("dictionary changed size during iteration").  true = raised. *)
 Definition g_isub_hist (w : world) (g h : handle) : world * bool :=
-  if Bool.eqb (h_store g) (h_store h) && st_simple (w_get w (h_store g)) then
+  if Nat.eqb (h_store g) (h_store h) && st_simple (w_get w (h_store g)) then
     match g_triples w h all_pat with
     | [] => (w, false)
     | t :: _ => (g_remove w g (pat_of t), true)
@@ -351,20 +353,24 @@ Definition fresh_cid : cid := 0%N.
 Definition fresh_add (m : mem) (l : list triple) : mem := fold_left (fun m t => mem_add m fresh_cid t) l m.
 Definition fresh_content (m : mem) : list triple := mem_triples m fresh_cid all_pat.
 
-Definition g_bin (o : binop) (w : world) (g h : handle) : list triple :=
+(* retval = type(self)() ...: the store of the result *)
+Definition g_bin_mem (o : binop) (w : world) (g h : handle) : mem :=
   let lg := g_triples w g all_pat in
   let lh := g_triples w h all_pat in
   let sub la b := fresh_add mem_empty (filter (fun x => negb (g_contains w b (pat_of x))) la) in
   match o with
-  | OAdd => fresh_content (fresh_add (fresh_add mem_empty lg) lh)
-  | OMul => fresh_content (fresh_add mem_empty (filter (fun x => g_contains w g (pat_of x)) lh))
-  | OSub => fresh_content (sub lg h)
-  | OXor => fresh_content (fresh_add (fresh_add mem_empty (fresh_content (sub lg h)))
-                                     (fresh_content (sub lh g)))
+  | OAdd => fresh_add (fresh_add mem_empty lg) lh
+  | OMul => fresh_add mem_empty (filter (fun x => g_contains w g (pat_of x)) lh)
+  | OSub => sub lg h
+  | OXor => fresh_add (fresh_add mem_empty (fresh_content (sub lg h))) (fresh_content (sub lh g))
   end.
 
-(* one operation: new world, "raised", content of the operator's result *)
-Definition g_step (w : world) (o : gop) : world * bool * list triple :=
+Definition g_bin (o : binop) (w : world) (g h : handle) : list triple := fresh_content (g_bin_mem o w g h).
+
+(* One operation: new world, "raised", content of the operator's result.  [nx] is
+   the number of the next new store: the result of a binary operator is a graph
+   (store nx, fresh_cid) that stays in play for the rest of the history. *)
+Definition g_step (w : world) (nx : nat) (o : gop) : world * bool * list triple :=
   match o with
   | GAdd g t => (g_add w g t, false, [])
   | GAddN g qs => (g_addN w g qs, false, [])
@@ -372,8 +378,11 @@ Definition g_step (w : world) (o : gop) : world * bool * list triple :=
   | GSet g t => (g_set w g t, false, [])
   | GIAdd g h => (g_iadd w g h, false, [])
   | GISub g h => (g_isub w g h, false, [])
-  | GBin b g h => (w, false, g_bin b w g h)
+  | GBin b g h => let m := g_bin_mem b w g h in (w_set w nx (SMem m), false, fresh_content m)
   end.
+
+Definition nx_next (o : gop) (nx : nat) : nat :=
+  match o with GBin _ _ _ => Datatypes.S nx | _ => nx end.
 
 (* ------------------------------------------------------------------ *)
 (* Cases and observations                                              *)
@@ -401,18 +410,23 @@ Definition observe (w : world) (probe : triple) (g : handle) : hobs :=
   (g_triples w g all_pat, g_len w g,
    map (g_triples w g) (masks probe), map (g_contains w g) (masks probe)).
 
-Fixpoint g_run (hs : list handle) (w : world) (ops : list (gop * triple)) : obs :=
+Fixpoint g_run (hs : list handle) (w : world) (nx : nat) (ops : list (gop * triple)) : obs :=
   match ops with
   | [] => []
   | (o, probe) :: r =>
-      let '(w', raised, res) := g_step w o in
-      (raised, res, map (observe w' probe) hs) :: g_run hs w' r
+      let '(w', raised, res) := g_step w nx o in
+      (raised, res, map (observe w' probe) hs) :: g_run hs w' (nx_next o nx) r
   end.
 
 Definition st_init (simple : bool) : store := if simple then SSimple sm_empty else SMem mem_empty.
-Definition w_init (c : case) : world := {| w0 := st_init (c_simple0 c); w1 := st_init (c_simple1 c) |}.
+Definition w_init (c : case) : world :=
+  fun b => match b with
+           | 0 => st_init (c_simple0 c)
+           | 1 => st_init (c_simple1 c)
+           | _ => SMem mem_empty       (* not yet created: observed as an empty graph *)
+           end.
 
-Definition model_obs (c : case) : obs := g_run (c_handles c) (w_init c) (c_ops c).
+Definition model_obs (c : case) : obs := g_run (c_handles c) (w_init c) 2 (c_ops c).
 
 (* observations are compared up to the order of every enumeration *)
 Definition tl_eqb (a b : list triple) : bool :=
@@ -433,28 +447,15 @@ Definition obs_eqb (a b : obs) : bool := list_eqb sobs_eqb a b.
 
 (* the name of a graph in the specification: a SimpleMemory store ignores the
    context, so it holds one graph; graphs of different stores are different *)
+Definition store_simple (c : case) (b : nat) : bool :=
+  match b with 0 => c_simple0 c | 1 => c_simple1 c | _ => false end.
+
+(* an injective numbering of (store, graph) pairs: 2^store * (2 x + 1) *)
+Fixpoint enc (b : nat) (x : N) : N :=
+  match b with O => (2 * x + 1)%N | Datatypes.S b' => (2 * enc b' x)%N end.
+
 Definition scid (c : case) (g : handle) : cid :=
-  if h_store g then (if c_simple1 c then 1 else 3 + 2 * h_cid g)%N
-  else (if c_simple0 c then 0 else 2 + 2 * h_cid g)%N.
-
-Definition sp_content (S : qset) (k : cid) : list triple := q_triples all_pat k S.
-
-Definition sp_add_all (k : cid) (l : list triple) (S : qset) : qset :=
-  fold_left (fun S t => q_add (t, k) S) l S.
-Definition sp_remove_all (k : cid) (l : list triple) (S : qset) : qset :=
-  fold_left (fun S t => q_remove (pat_of t) (Some k) S) l S.
-
-Definition spec_step (c : case) (S : qset) (o : gop) : qset :=
-  match o with
-  | GAdd g t => q_add (t, scid c g) S
-  | GAddN g qs =>
-      sp_add_all (scid c g) (map fst (filter (fun q => N.eqb (h_tok (snd q)) (h_tok g)) qs)) S
-  | GRemove g p => q_remove p (Some (scid c g)) S
-  | GSet g t => q_add (t, scid c g) (q_remove (sp_pat t) (Some (scid c g)) S)
-  | GIAdd g h => sp_add_all (scid c g) (sp_content S (scid c h)) S
-  | GISub g h => sp_remove_all (scid c g) (sp_content S (scid c h)) S
-  | GBin _ _ _ => S
-  end.
+  enc (h_store g) (if store_simple c (h_store g) then 0 else h_cid g + 1)%N.
 
 Definition teq := triple_eqb.
 
@@ -465,6 +466,27 @@ Definition spec_bin (o : binop) (a b : list triple) : list triple :=
   | OSub => sdiff teq a b
   | OMul => sinter teq a b
   | OXor => sunion teq (sdiff teq a b) (sdiff teq b a)
+  end.
+
+Definition sp_content (S : qset) (k : cid) : list triple := q_triples all_pat k S.
+
+Definition sp_add_all (k : cid) (l : list triple) (S : qset) : qset :=
+  fold_left (fun S t => q_add (t, k) S) l S.
+Definition sp_remove_all (k : cid) (l : list triple) (S : qset) : qset :=
+  fold_left (fun S t => q_remove (pat_of t) (Some k) S) l S.
+
+Definition spec_step (c : case) (nx : nat) (S : qset) (o : gop) : qset :=
+  match o with
+  | GAdd g t => q_add (t, scid c g) S
+  | GAddN g qs =>
+      sp_add_all (scid c g) (map fst (filter (fun q => N.eqb (h_tok (snd q)) (h_tok g)) qs)) S
+  | GRemove g p => q_remove p (Some (scid c g)) S
+  | GSet g t => q_add (t, scid c g) (q_remove (sp_pat t) (Some (scid c g)) S)
+  | GIAdd g h => sp_add_all (scid c g) (sp_content S (scid c h)) S
+  | GISub g h => sp_remove_all (scid c g) (sp_content S (scid c h)) S
+  | GBin b g h =>
+      (* a new graph, in nobody's store, holding exactly the set the operator denotes *)
+      sp_add_all (scid c (nx, fresh_cid, 0%N)) (spec_bin b (sp_content S (scid c g)) (sp_content S (scid c h))) S
   end.
 
 Fixpoint all2 {A B} (f : A -> B -> bool) (l : list A) (m : list B) : bool :=
@@ -491,18 +513,16 @@ Definition sobs_ok (c : case) (S S' : qset) (o : gop) (probe : triple) (so : sob
      end
   && all2 (fun g ho => hobs_ok (sp_content S' (scid c g)) probe ho) (c_handles c) hs.
 
-Fixpoint spec_run (c : case) (S : qset) (ops : list (gop * triple)) (ob : obs) : bool :=
+Fixpoint spec_run (c : case) (nx : nat) (S : qset) (ops : list (gop * triple)) (ob : obs) : bool :=
   match ops, ob with
   | [], [] => true
   | (o, probe) :: r, so :: ob' =>
-      let S' := spec_step c S o in
-      sobs_ok c S S' o probe so && spec_run c S' r ob'
+      let S' := spec_step c nx S o in
+      sobs_ok c S S' o probe so && spec_run c (nx_next o nx) S' r ob'
   | _, _ => false
   end.
 
-Definition spec_ok (c : case) (ob : obs) : bool := spec_run c [] (c_ops c) ob.
-
-Definition store_simple (c : case) (b : bool) : bool := if b then c_simple1 c else c_simple0 c.
+Definition spec_ok (c : case) (ob : obs) : bool := spec_run c 2 [] (c_ops c) ob.
 
 (* well-formed cases: graph objects sharing an identifier object have the same
    store key (same identifier) *)
@@ -516,6 +536,15 @@ Definition op_handles (o : gop) : list handle :=
 Definition case_handles (c : case) : list handle :=
   c_handles c ++ flat_map (fun ot => op_handles (fst ot)) (c_ops c).
 
+(* ... and an operation only uses graphs that exist: stores 0, 1 and the results
+   of earlier binary operators *)
+Fixpoint scopedb (nx : nat) (ops : list (gop * triple)) : bool :=
+  match ops with
+  | [] => true
+  | (o, _) :: r => forallb (fun g => Nat.ltb (h_store g) nx) (op_handles o) && scopedb (nx_next o nx) r
+  end.
+
 Definition wfb (c : case) : bool :=
   forallb (fun g => forallb (fun h => implb (N.eqb (h_tok g) (h_tok h)) (N.eqb (h_cid g) (h_cid h)))
-                            (case_handles c)) (case_handles c).
+                            (case_handles c)) (case_handles c)
+  && scopedb 2 (c_ops c).
